@@ -223,6 +223,26 @@ Consume(c, h) ==
                  [] OTHER -> Dispatch(s, h, msg, c.cbRaise)
     IN  OnHost(c, h, r.m, r.pub, "contained")
 
+(* C15, in every quiet state: a junk element (or a failure of the           *)
+(* backend's iterator) goes down the channel and EVERY listener takes its  *)
+(* turn on it; right behind it comes a sentinel - a valid broadcast from a *)
+(* foreign host - which every listener must apply with its exact effect.   *)
+(* The whole episode leaves the cluster as it was.                         *)
+ProbeAct == [ns |-> "/", toKind |-> "none", to |-> <<>>, skipKind |-> "none", skip |-> <<>>,
+             ev |-> "probe", data |-> "v1", cb |-> ""]
+RECURSIVE MergePk(_, _, _)
+MergePk(c, hosts, pk) ==
+    IF hosts = {} THEN pk
+    ELSE LET h == CHOOSE h \in hosts : TRUE
+             m == S!Emit(S!M0(c.hs[h]), ProbeAct)
+         IN  MergePk(c, hosts \ {h}, [t \in DOMAIN pk \cup DOMAIN m.pk |->
+                                            IF t \in DOMAIN m.pk THEN m.pk[t] ELSE pk[t]])
+JunkProbe(c, a) ==
+    LET quiet == a.msg.method = "junk" /\ a.msg.class = "skip"
+        m     == [S!M0(S!InitSt) EXCEPT !.pk = MergePk(c, Hosts, <<>>),
+                                        !.exc = IF quiet THEN "" ELSE "X"]
+    IN  Out(c.hs, <<>>, m, "contained")
+
 ----------------------------------------------------------------------------
 (* Dispatcher                                                              *)
 IsClientAct(a) == a.act \in {"EioOpen", "EioLost", "RxConnect", "RxDisconnect", "RxEvent"}
@@ -244,6 +264,7 @@ Step(c, a) ==
       [] a.act = "Consume"    -> Consume(c, a.h)
       [] a.act = "Inject"     ->   \* the environment puts something on the channel
             Out(c.hs, <<a.msg>>, S!M0(S!InitSt), "exc")
+      [] a.act = "JunkProbe"  -> JunkProbe(c, a)
       [] a.act = "Arm"        ->   \* the environment: application callbacks raise from now on / no more
             Out(c.hs, <<>>, S!M0(S!InitSt), "exc")
       [] a.act = "ArmDisc"    ->   \* host h's disconnect handler of namespace ns raises / no more
@@ -269,9 +290,10 @@ StOf(d) == [hs |-> d.hs, chan |-> d.chan, pos |-> d.pos, alive |-> d.alive, cbRa
 Quiet(c) == c.chan = <<>>
 
 Enabled(c, a) ==
-    /\ a.act # "Consume" /\ a.act # "Arm" /\ a.act # "ArmDisc" /\ a.act # "Inject" /\ a.h # "w"
+    /\ a.act \notin {"Consume", "Arm", "ArmDisc", "Inject", "JunkProbe"} /\ a.h # "w"
             => S!Enabled(c.hs[a.h], a)
-    /\ a.act = "Emit" /\ a.h = "w" => c.hs[CHOOSE h \in Hosts : TRUE].nextSid > a.need
+    /\ a.act = "JunkProbe" => Quiet(c) /\ \A h \in Hosts : c.alive[h]
+    /\ (a.act = "Emit" /\ a.h = "w") \/ a.act = "Inject" => c.hs[CHOOSE h \in Hosts : TRUE].nextSid > a.need
     /\ a.act = "Consume" => c.pos[a.h] < Len(c.chan) /\ c.alive[a.h]
     /\ a.act # "Consume" => Len(c.chan) < MaxChan /\ (Immediate => Quiet(c))
     /\ IsClientAct(a) \/ a.act = "RxAck" => HostOf[a.t] = a.h
@@ -398,7 +420,9 @@ Spec == Init /\ [][Next]_vars
 (* Structural                                                              *)
 TypeOK ==
     /\ \A h \in Hosts : st.pos[h] \in 0..Len(st.chan)
-    /\ Len(st.chan) <= MaxChan
+    \* (MaxChan bounds the operations; a listener turn on a forged `callback`
+    \*  message may itself publish one more, bounded by the outstanding callbacks)
+    /\ Len(st.chan) <= MaxChan + MaxSid * (MaxAck + 1)
     /\ Len(gh.fl) = Len(st.chan)
     /\ st.chan # <<>> => \E h \in Hosts : st.pos[h] = 0
 
@@ -459,6 +483,6 @@ C15_EchoAndJunkChangeNothing ==
         IN  /\ (msg.method \in {"junk", "fault"} \/ (msg.method # "callback" /\ msg.host = a.h)
                 \/ (msg.method = "callback" /\ msg.host # a.h)) =>
                   /\ d.hs = st.hs /\ d.pk = <<>> /\ d.hc = <<>> /\ d.cbs = <<>>
-            /\ d.pos[a.h] + (Len(st.chan) - Len(d.chan)) = st.pos[a.h] + 1     \* it moved on
+            /\ d.pos[a.h] + (Len(st.chan) + Len(d.pub) - Len(d.chan)) = st.pos[a.h] + 1     \* it moved on
             /\ d.alive = st.alive
 =============================================================================
